@@ -407,6 +407,8 @@ def cases(seed, tier, shard, nshards):
         rng = rng_for(seed, ID, shard, i)
         i += 1
         g = Gen(rng, 4)
+        if tier == "thorough":
+            g.budget = 26       # more statements / scopes per program (depth stays 1-4)
         env = Env("mod", {}, set())
         env.plan = {n for n in POOL if rng.random() < 0.7}
         full = rng.random() < 0.6
